@@ -110,6 +110,11 @@ func nearTwin(g *Gen, t string) string {
 }
 
 func c08Rule(g *Gen) string {
+	if g.Chance(1, 10) {
+		// patterns the parser rewrites ("host/*" means "host^"), with and without modifiers: a rule and its textual
+		// twin are parsed alike
+		return Pick(g, []string{"||example.org/*", "@@||example.org/*", "example.org/ads/*", "||example.org/*$important", "||example.org/*$script", "/ads/*", "||example.org^*"})
+	}
 	if g.Chance(1, 4) {
 		base := Pick(g, []string{"||example.org^", "@@||example.org^"})
 		v := Pick(g, rewriteValues)
